@@ -1,6 +1,7 @@
 // LOAD world (C17, C10): loaders and parsers behind the simulated file store.  DESIGN.md section 6.
 #include "dec.h"
 #include <set>
+#include <sstream>
 #include <algorithm>
 #include <cmath>
 
@@ -53,6 +54,25 @@ static std::vector<int64_t> locate_fields(const std::string &file, const std::st
         int64_t p = 12 + rd32(b, 8);
         for (int k = 0; k < 12; ++k)
             f.push_back(p + 4 * k);
+        // the count embedded in the data, behind names (NUL-terminated, padded to 4), tree (8 bytes a node) and phone
+        // table (12 bytes an entry): header counts in the order n_ciphone, n_phone, ..., n_cd_tree (ninth), sil
+        if (p + 40 <= (int64_t)b.size()) {
+            int64_t n_ci = rd32(b, p), n_phone = rd32(b, p + 4), n_tree = rd32(b, p + 32), q = p + 40;
+            bool ok = n_ci > 0 && n_ci < 1000 && n_phone > 0 && n_tree >= 0;
+            for (int64_t i = 0; ok && i < n_ci; ++i) {
+                size_t z = b.find('\0', (size_t)q);
+                if (z == std::string::npos)
+                    ok = false;
+                else
+                    q = (int64_t)z + 1;
+            }
+            if (ok) {
+                q = p + 40 + (((q - (p + 40)) + 3) & ~(int64_t)3);
+                q += n_tree * 8 + n_phone * 12;
+                if (q + 4 <= (int64_t)b.size())
+                    f.push_back(q); // sseq_size
+            }
+        }
     } else if (file == "sendump") {
         int64_t p = 0;
         for (int guard = 0; guard < 64 && p + 4 <= (int64_t)b.size(); ++guard) {
@@ -105,8 +125,24 @@ static std::string valid_artefact(Rng &r, const std::string &kind)
             return "#JSGF V1.0;\ngrammar top;\nimport <sub.words>;\npublic <s> = go <words> | <sub.words>;\n";
         return grammar::gen_jsgf(r, L.vocab).gets("text");
     }
-    if (kind == "fsg_file" || kind == "fsg_buf")
+    if (kind == "fsg_file" || kind == "fsg_buf") {
+        if (r.chance(0.12)) { // a command list: few states, many distinct words (vocabulary-sized tables outgrow state-sized ones)
+            int ns = (int)r.range(2, 5), nw = (int)r.pick(std::vector<int> { 20, 24, 30, 31, 33, 40, 63, 65, 90 });
+            std::ostringstream o;
+            o << "FSG_BEGIN cmds\nNUM_STATES " << ns << "\nSTART_STATE 0\nFINAL_STATE " << ns - 1 << "\n";
+            std::set<std::string> used;
+            for (int i = 0; i < nw; ++i) {
+                std::string w = r.pick(L.vocab);
+                if (!used.insert(w).second)
+                    continue;
+                int f = (int)r.below((uint64_t)ns - 1);
+                o << "TRANSITION " << f << " " << f + 1 << " " << (r.chance(0.5) ? "1.0" : "0.1") << " " << w << "\n";
+            }
+            o << "FSG_END\n";
+            return o.str();
+        }
         return r.chance(0.2) ? grammar::fixed("goforward_fsg").gets("text") : grammar::gen_fsg(r, L.vocab).gets("text");
+    }
     if (kind == "dict_file") {
         // an excerpt of the small dictionary
         std::string t;
@@ -296,7 +332,7 @@ struct LoadWorld : World {
     const char *name() const override { return "load"; }
     std::vector<std::string> properties() const override { return { "C17", "C10" }; }
     std::string level(const std::string &) const override { return "fault_enumeration"; }
-    int64_t default_runs(const std::string &p, int tier) const override { return p == "C10" ? (tier ? 300000 : 5000) : (tier ? 30000 : 1000); }
+    int64_t default_runs(const std::string &p, int tier) const override { return p == "C10" ? (tier ? 300000 : 5000) : (tier ? 30000 : 1500); }
     int watchdog_s(const std::string &p) const override { return p == "C10" ? 25 : 120; }
 
     // ---- enumeration (thorough tier walks it completely before seeded sampling starts)
@@ -587,6 +623,22 @@ struct LoadWorld : World {
                 op.set("via", "config");
             if ((kind == "fsg_buf" || kind == "jsgf_string") && r.chance(0.2))
                 op.set("via", "s3file");
+            if (kind == "add_word" && r.chance(0.3)) {
+                // a spelling with a byte that only SOME of the library's tokenisers take for white space, then an alignment
+                // text that uses it (every pass over that text has to split it the same way)
+                const Lang &L = lang("en");
+                std::string a = r.pick(L.vocab), b = r.pick(L.vocab);
+                std::string sep = r.pick(std::vector<std::string> { "\f", "\v", "\x1c", "\x1f", "\xc2\xa0", "\x85", "\r" });
+                std::string w = a + sep + b;
+                op.set("text", w + "\t" + r.pick(L.phones) + " " + r.pick(L.phones));
+                ops.push(op);
+                Json op2 = Json::object();
+                op2.set("op", "parse");
+                op2.set("kind", "align_text");
+                op2.set("text", (r.chance(0.5) ? r.pick(L.vocab) + " " : std::string()) + w + " " + r.pick(L.vocab) + (r.chance(0.5) ? " " + w : std::string()));
+                ops.push(op2);
+                continue;
+            }
             ops.push(op);
         }
         p.set("ops", ops);
@@ -613,6 +665,10 @@ struct LoadWorld : World {
             }
             int64_t n = (int64_t)b.size();
             std::set<int64_t> cuts = { 0, 1, 2, 3, n - 1, n - 2, n - 4, n - 5 };
+            // a file that ends inside a count (1-3 of its 4 bytes present) or right before / after it
+            for (int64_t off : locate_fields(file, b))
+                for (int64_t dlt = 0; dlt <= 4; ++dlt)
+                    cuts.insert(off + dlt);
             // files with a text header: every cut inside the header and the byte-order word after it (a header parser
             // works in passes that must agree on where the header ends)
             size_t eh = b.find("endhdr");
